@@ -6,7 +6,7 @@ from vlib import c01lib, common
 GO = dict(module="core", pkg=c01lib.PKG, pkgname=c01lib.PKGNAME,
           files=dict(c01lib.ENV_FILES, **{"zz_verif_c02_test.go": "c02/c02_test.go"}), run="TestVerifC02")
 PARAMS_NAME = c01lib.PARAMS_NAME
-HEADER = ("From Hy Require Import lib.Harness gen.ParamsC01 model.C01_ServerAuth corr.C01_Corr corr.C02_Corr.\n"
+HEADER = ("From Hy Require Import gen.ParamsC01 model.C01_ServerAuth corr.C01_Corr corr.C02_Corr.\n"
           "Local Open Scope N_scope.\n")
 CORR_NAME = "C02_Corr"
 PER_SHARD = 3
@@ -133,7 +133,9 @@ def nontrivial(c, o):
 
 
 def fingerprint(c, o):
-    return None
+    import re
+    why = o.get("why") or ""
+    return "c02:" + re.sub(r'"[^"]*"|\d+', "#", why)[:90]
 
 
 def search(ctx, disagreeing):
